@@ -27,6 +27,7 @@ func checkC07(p *Prog, r *Report) {
 	ruleC07Bool(p, a, r)
 	ruleC07EqKinds(p, a, r)
 	ruleC07Unary(p, a, r)
+	ruleC07Uintptr(p, a, r)
 	ruleDivisionGuards(p, a, r, "R-C07-DIV", true)
 	ruleC07Sym(p, a, r)
 	ruleC07Fmt(p, a, r)
